@@ -196,7 +196,8 @@ MEMBER_CHOICES = ("absent", "plain", "pre", "post", "both")
 def hier_program(ids: Ids, rng, shape: List[List[int]], kind: str, is_async: bool, choices: Optional[List[str]] = None,
                  allow_reject: bool = False, inv_prob: float = 0.3, max_conj: int = 2, forms=None, errs=None,
                  with_snaps: bool = True, avoid_mixed: bool = False, dbc_root: bool = True, avoid_copy_shadow: bool = False,
-                 inv_check_ons=("CALL", "CALL", "DEFAULT", "ALL", "SETATTR"), foreign_prob: float = 0.2) -> Dict[str, Any]:
+                 inv_check_ons=("CALL", "CALL", "DEFAULT", "ALL", "SETATTR"), foreign_prob: float = 0.2,
+                 shared_prob: float = 0.15) -> Dict[str, Any]:
     """One hierarchy (classes K<n>) with one member of the given kind declared/overridden per ``choices``."""
     from vkit.model import Model  # pylint: disable=import-outside-toplevel
 
@@ -220,6 +221,21 @@ def hier_program(ids: Ids, rng, shape: List[List[int]], kind: str, is_async: boo
                 m = make_member(ids, rng, kind, base, is_async, n_pre, n_post, n_snap, forms, errs)
                 if kind in ("pset", "pdel"):
                     members.append(make_member(ids, rng, "pget", base, False, 0, 0, 0))
+                if kind not in ("init", "new") and bases and rng.random() < shared_prob:
+                    # the override re-uses a decorator OBJECT of a base's member (one contract listed in two classes)
+                    role = rng.choice(("pre", "post"))
+                    own = [d for d in m["decos"] if d[0] == role]
+                    pool = []
+                    for b in bases:
+                        for bm in classes[b]["members"]:
+                            if bm["name"] == m["name"] and bm["kind"] == m["kind"]:
+                                pool.extend(d for d in bm.get("decos", []) if d[0] == role and d[1].get("form") in ("def", "lambda")
+                                            and not d[1].get("via_helper"))
+                    if own and pool:
+                        picked = rng.choice(pool)
+                        picked[1]["shared"] = True
+                        picked[1]["form"] = "def"
+                        m["decos"].insert(rng.randint(0, len(m["decos"])), picked)
                 if kind in ("pset", "pdel") and choice == "plain" and i > 0 and rng.random() < 0.4:
                     # the class re-defines the property read-only: the accessor under test does not exist on its property (a join
                     # below it inherits the accessor's contracts from the other bases only)
